@@ -164,8 +164,12 @@ func genCondsFrom(t *rapid.T, min, max int, cands []interface{}) []Cond {
 				dup = true
 			}
 		}
-		if dup || k == "" || strings.ContainsAny(k, ":|=>§!") { // a sub-key argument needs a name, and one that no separator or the negation mark splits
+		if dup || k == "" || strings.ContainsAny(k, ":|=>§") { // a sub-key argument needs a name, and one that no separator splits
 			continue
+		}
+		if strings.HasPrefix(k, "!") {
+			// a label that begins with the negation mark can only be named in a negated condition ("!!x:v")
+			cs[i].Neg = true
 		}
 		cs[i].Key = k
 		switch v := m[k].(type) {
